@@ -366,8 +366,8 @@ func modelRefsFor(db *refdb.DB, oid []byte) []string {
 
 func scanIter(it *reftable.Iterator) ([]string, error) {
 	var out []string
+	var r reftable.RefRecord // one record, reused
 	for {
-		var r reftable.RefRecord
 		ok, err := it.NextRef(&r)
 		if err != nil {
 			return out, err
